@@ -194,6 +194,15 @@ func (l *Layout) ambiguous(base string, refs []fileTruth) bool {
 		}
 		// a module file must not also look like a plain existing file of another kind
 	}
+	// A module nested in another one: which of the two roots is detected depends on the order
+	// in which their files are met; only the validity rules apply.
+	for i := range l.Modules {
+		for j := range l.Modules {
+			if i != j && strings.HasPrefix(l.Modules[j].Dir+"/", l.Modules[i].Dir+"/") {
+				return true
+			}
+		}
+	}
 	// Remote roots must not be prefixes of one another (disjoint roots).
 	var rr []string
 	if l.GorootRemote != "" {
@@ -232,7 +241,7 @@ func genRemoteRoot(t *rapid.T, tag string) string {
 	n := rapid.IntRange(1, 4).Draw(t, "rootDepth")
 	el := []string{}
 	for i := 0; i < n; i++ {
-		el = append(el, rapid.SampledFrom([]string{"home", "u", "usr", "lib", "go", "r", "opt", tag, "rené", "Program Files"}).Draw(t, "rootElem"))
+		el = append(el, rapid.SampledFrom([]string{"home", "u", "usr", "lib", "go", "r", "opt", tag, "rené", "Program Files", "src", "srcs", "pkg", "mod"}).Draw(t, "rootElem"))
 	}
 	return "/" + strings.Join(el, "/") + "/" + tag
 }
@@ -376,6 +385,13 @@ func dumpFor(refs []string, order []int) DumpM {
 				pkg = "example.com/p" + fmt.Sprint(k)
 			}
 			g.Frames = append(g.Frames, FrameM{Pkg: pkg, Name: "F", File: p, Line: 10 + k, PCOff: 1, Args: ArgListM{Items: []ArgM{{Val: 1}}}})
+		}
+		switch gi % 3 {
+		case 1:
+			// started from a file under no root (generated code, a build directory)
+			g.Creator = &CreatorM{Pkg: "main", Name: "spawn", File: "/tmp/go-build55/b001/gen.go", Line: 7, PCOff: 2, Parent: 1}
+		case 2:
+			g.Creator = &CreatorM{Pkg: "main", Name: "spawn", File: g.Frames[0].File, Line: 7, PCOff: 2, Parent: 1}
 		}
 		d.Gs = append(d.Gs, g)
 	}
